@@ -224,6 +224,11 @@ def run(repo: Repo, L: Ledger, tier: str):
 
     # buffer-size independence of gap rendering (structural half of "byte-identical for every buffer size")
     gap_iter_exact(repo, L, "R3")
+    # the byte fetcher reads exactly the requested interval (no over-read that is sliced afterwards):
+    # discharges the assumption "sequence_bytes(s, e) holds e − s + 1 residues" algebraically (shared with C03.R6)
+    from .c03 import _random_access
+
+    _random_access(repo, L, fi, rule="R3")
 
     # ---- R4
     fs = repo.cls("FastaStream")
@@ -261,7 +266,7 @@ def run(repo: Repo, L: Ledger, tier: str):
     callers = sorted({f.short for f, c in repo.callers_of(sb)})
     allowed = {"FastaIndex.fwd_chunks", "FastaIndex.rev_chunks", "FastaIndex.get_fasta_seq"}
     L.check(set(callers) <= allowed, "R5", sb.short + ":callers", f"fetched only by {callers}", f"sequence_bytes is also called from {sorted(set(callers) - allowed)} (span not bounded by the chunk rule)", sb.loc())
-    L.assume("sequence_bytes(s, e) holds e − s + 1 residues (seek arithmetic is not decided here)")
+    L.assume("each read of sequence_bytes stays inside one FASTA line")
 
 
 def _bounded(expr: Lin, B: Lin):
